@@ -27,7 +27,7 @@ def shards(tier):
 
 
 def required_classes(tier):
-    return ["prog:deg1", "prog:deg2", "prog:deg12", "prog:adhoc", "W4:depth1", "sgn0:FQ", "sgn0:FQ2", "sgn0:FQ12", "sgn0:zero-first-coeff", "sgn0:after-neg",
+    return ["prog:derived-class", "prog:deg1", "prog:deg2", "prog:deg12", "prog:adhoc", "W4:depth1", "sgn0:FQ", "sgn0:FQ2", "sgn0:FQ12", "sgn0:zero-first-coeff", "sgn0:after-neg",
             "leaf:FQ-object-coeffs", "cmp"]
 
 
@@ -269,6 +269,25 @@ def run(rec):
         run_program(rec, "prog:adhoc", rcls, ocls, F, prog, leaves)
         if j % 5 == 0 and d > 1:
             sgn0_checks(rec, ocls, F, rng, "sgn0:adhoc", 2)
+    # classes DERIVED from a concrete class that was used first, overriding only the modulus coefficients (every shard: cheap)
+    from ..model.gf import is_irreducible
+    import py_ecc.fields as pf
+    for base_r, base_o in ((pf.bn128_FQ2, pf.optimized_bn128_FQ2), (pf.bls12_381_FQ2, pf.optimized_bls12_381_FQ2), (G.adhoc_class("ref", 7, (1, 0))[0], G.adhoc_class("opt", 7, (1, 0))[0])):
+        p = base_r.field_modulus
+        call(lambda: base_r([1, 2]) * base_r([3, 4]))
+        call(lambda: base_o([1, 2]) * base_o([3, 4]))
+        for mc in ((2, 0), (3, 0), (5, 0), (1, 1), (2, 1)):
+            if not is_irreducible(mc, p) or mc == tuple(int(getattr(c, "n", c)) for c in base_r.FQ2_MODULUS_COEFFS):
+                continue
+            rcls, F = G.derived_class(base_r, mc=mc)
+            ocls, _ = G.derived_class(base_o, mc=mc)
+            for rep in range(6 if quick else 60):
+                pool = G.elements(F, rng, 3)
+                leaves = [rng.choice(pool) for _ in range(2)]
+                prog = gen_program(rng, 2, 2, 6, 60, p)
+                rec.case("prog:derived-class", ("progd", p, mc, tuple(prog), tuple(leaves)), sample={"field": "derived from %s with modulus %r" % (base_o.__name__, mc), "program": prog})
+                run_program(rec, "prog:derived-class", rcls, ocls, F, prog, leaves)
+            break
     # W4: all depth-1 programs on small fields
     small = [(p, None) for p in (2, 3, 5, 7)] + [(p, mc) for p in (3, 5) for mc in G.irreducible_quadratics(p)[: (2 if quick else 99)]]
     for p, mc in small:
